@@ -5,11 +5,12 @@ Liveness is stated as safety over complete schedules: "no reachable state in whi
 its semaphore closed, no notifier step is pending, and its wake-up predicate is true".
 
 `Monitor` theorems quantify over EVERY number of sleepers and notifiers, EVERY program (sequence of `wait(ctx, cond)`
-calls / of `[cond := true;] notify(pred)|notify_all|notify_one|abort_all` calls in their fenced or `_relaxed` form,
+calls / of `[cond := true;] notify(pred)|notify_all|notify_one|notify_one_relaxed(pred)|abort_all` calls in their fenced or `_relaxed` form,
 and `cond := false`), and EVERY schedule `sched : List Tid` of the atomic-access-level model (`Model/C02.lean`),
 i.e. every sequentially consistent interleaving of the accesses of `concurrent_monitor.h`.
 -/
 import TbbVerif.Proofs.C02.Monitor
+import TbbVerif.Proofs.C02.MonOneInv
 import TbbVerif.Proofs.C02.BinSem
 import TbbVerif.Proofs.C02.Tso
 import TbbVerif.Proofs.C02.Flag
@@ -22,7 +23,10 @@ namespace TbbVerif.C02
 
 /-- **No lost wake-up.**  Hypothesis `compatB`: every state change of a condition is followed, in the same notifier
 operation, by a notification whose predicate accepts the context of every wait on that condition
-(`notify(pred)`, `notify_all`, `abort_all`; `notify_one` accepts nobody).  Then, in every reachable state, for a
+(`notify(pred)`, `notify_all`, `abort_all`; the predicate-less `notify_one` accepts nobody); a
+`notify_one_relaxed(pred)` counts as such a notification when the thread waiting on that condition with the matching
+context is the only thread that ever waits with that context (`uniqB`: one blocked thread per contended address, any
+number of other contexts — older or newer — in the same wait set).  Then, in every reachable state, for a
 sleeper that has passed its predicate check (it was false) and is in `commit_wait` / parked in `P()` with a closed
 semaphore:
 (a) it is still in the waitset, or a notifier has dequeued it and still owes it the `V`  (never silently dropped);
@@ -84,12 +88,15 @@ theorem monitor_abort_wakes_all (ws : List (List WOp)) (ns : List (List NOp))
       (step s (s.slp.length + j)).waitset = [] ∧
       ∃ n', (step s (s.slp.length + j)).ntf[j]? = some n' ∧ n'.temp = s.waitset) := by
   have hc : compatB ws ns = true := by
-    simp only [compatB, List.all_eq_true]
-    intro p _ w _ q hq op hop
-    split
-    · rename_i c k r
-      rcases hall q hq _ hop c k r rfl with e | e <;> subst e <;> simp [NKind.accepts]
-    · rfl
+    refine compatB_of ?_ ?_
+    · simp only [acceptB, List.all_eq_true]
+      intro p _ w _ q hq op hop
+      split
+      · rename_i c k r
+        rcases hall q hq _ hop c k r rfl with e | e <;> subst e <;> simp [NKind.accepts]
+      · rfl
+    · intro q hq op hop c c0 r e
+      rcases hall q hq op hop c _ r e with e' | e' <;> cases e'
   constructor
   · intro i sl hi hpc hsem hcond
     exact (monitor_no_lost_wakeup ws ns hc sched s hs i sl hi (Or.inr hpc) hsem).2 hcond
@@ -131,6 +138,126 @@ theorem monitor_waitset_consistent (ws : List (List WOp)) (ns : List (List NOp))
   subst hs
   have h := reach_inv ws ns hc sched
   exact ⟨h.cnt, h.nodup⟩
+
+/-! ### `notify_one_relaxed(pred)`: which node the scan dequeues, that it stops after it, and the bucket-collision family -/
+
+/-- **`notify_one_relaxed(pred)` wakes the first matching node of its scan, whatever surrounds it.**  In every
+reachable state in which notifier `j` is at the scan step of a `notify_one_relaxed(ctx == c)` and the wait set is
+`pre ++ x :: post` (oldest first) where `x` has context `c` and no newer node (`post`) has — `pre` and `post` may hold
+any number of waiters of other contexts, e.g. the waiters of other mutexes hashing to the same `address_waiter` bucket
+that went to sleep before or after `x` — the step dequeues exactly `x`: the wait set becomes `pre ++ post`, the
+notifier's local list is `[x]`, exactly one `V` is now owed to `x` (and none is pending in its semaphore), and the
+next step clears its `my_is_in_list`. -/
+theorem monitor_notify_one_pred_wakes_first_match (ws : List (List WOp)) (ns : List (List NOp)) (hc : compatB ws ns = true)
+    (sched : List Tid) (s : St) (hs : s = (sys ws ns).run sched)
+    (j : Nat) (n : Notifier) (hj : s.ntf[j]? = some n) (hne : n.ops ≠ []) (c : Nat) (hk : n.kind = .onec c) (hpc : n.pc = .scan)
+    (pre post : List Nat) (x : Nat) (hw : s.waitset = pre ++ x :: post) (hx : s.ctxOf x = c) (hpost : ∀ y ∈ post, s.ctxOf y ≠ c) :
+    ((sys ws ns).run (sched ++ [s.slp.length + j])).waitset = pre ++ post ∧
+    (∃ n', ((sys ws ns).run (sched ++ [s.slp.length + j])).ntf[j]? = some n' ∧ n'.temp = [x] ∧ n'.pc = .mark) ∧
+    pend ((sys ws ns).run (sched ++ [s.slp.length + j])) x = 1 ∧
+    (∀ slx, ((sys ws ns).run (sched ++ [s.slp.length + j])).slp[x]? = some slx → slx.sem = 0) := by
+  have hrun : (sys ws ns).run (sched ++ [s.slp.length + j]) = step s (s.slp.length + j) := by
+    simp [Sys.run, Sys.runFrom_append, hs, sys]
+  have h1 := reach_invOne ws ns hc sched
+  rw [← hs] at h1
+  have h' : Inv (step s (s.slp.length + j)) := step_inv h1.1 _
+  obtain ⟨hW, _, hslp, n', hn', ht, hp, _⟩ := scan_onec_dequeues hj hne hk hpc hw hx hpost h1.1.nodup
+  have ht0 : n.temp = [] := ((h1.2 j n hj) (Or.inr ⟨c, hk⟩)).2 hpc
+  rw [ht0, List.nil_append] at ht
+  rw [hrun]
+  have hge : 1 ≤ pend (step s (s.slp.length + j)) x := by
+    have := pend_ge hn' x; rw [ht] at this; simpa using this
+  obtain ⟨slx, hslx⟩ := h1.1.wsv x (by rw [hw]; simp)
+  have hslx' : (step s (s.slp.length + j)).slp[x]? = some slx := by rw [hslp]; exact hslx
+  have hle := (sloc_owed (h'.slp x slx hslx')).1
+  refine ⟨hW, ⟨n', hn', ht, hp⟩, by omega, ?_⟩
+  intro sl2 h2
+  rw [hslx'] at h2; cases h2; omega
+
+/-- **None matching ⇒ nobody dequeued.**  If no node of the wait set has the context `c`, `notify_one_relaxed(ctx == c)`
+goes from the epoch bump straight to the unlock with an empty local list and the wait set untouched, and the unlock
+step then returns from the call: no semaphore is touched, no node leaves the wait set. -/
+theorem monitor_notify_one_pred_none_matching (ws : List (List WOp)) (ns : List (List NOp)) (hc : compatB ws ns = true)
+    (sched : List Tid) (s : St) (hs : s = (sys ws ns).run sched)
+    (j : Nat) (n : Notifier) (hj : s.ntf[j]? = some n) (hne : n.ops ≠ []) (c : Nat) (hk : n.kind = .onec c) (hpc : n.pc = .epoch)
+    (hnone : ∀ y ∈ s.waitset, s.ctxOf y ≠ c) :
+    (step s (s.slp.length + j)).waitset = s.waitset ∧
+    (∃ n', (step s (s.slp.length + j)).ntf[j]? = some n' ∧ n'.temp = [] ∧ n'.pc = .unlock) ∧
+    (∀ (s2 : St) (n2 : Notifier), s2.ntf[j]? = some n2 → n2.ops ≠ [] → n2.pc = .unlock → n2.temp = [] →
+      (step s2 (s2.slp.length + j)).slp = s2.slp ∧ (step s2 (s2.slp.length + j)).waitset = s2.waitset ∧
+      (step s2 (s2.slp.length + j)).ntf[j]? = some n2.finish) := by
+  have h := reach_inv ws ns hc sched
+  rw [← hs] at h
+  obtain ⟨hW, _, n', hn', ht, hp⟩ := epoch_onec_none hj hne hk hpc hnone
+  have ht0 : n.temp = [] := (h.ntf j n hj).2.2.1 (by simp [hpc])
+  refine ⟨hW, ⟨n', hn', by rw [ht, ht0], hp⟩, ?_⟩
+  intro s2 n2 h2 hne2 hpc2 ht2
+  exact unlock_empty_returns h2 hne2 hpc2 ht2
+
+/-- **At most one waiter is woken per `notify_one` / `notify_one_relaxed(pred)` call.**  In every reachable state the
+local list of a notifier executing such a call holds at most one node (so the call issues at most one `V`), it is
+empty until the scan step, and after clearing the dequeued node's `my_is_in_list` the call leaves the critical
+section instead of scanning on (`break`). -/
+theorem monitor_notify_one_at_most_one (ws : List (List WOp)) (ns : List (List NOp)) (hc : compatB ws ns = true)
+    (sched : List Tid) (s : St) (hs : s = (sys ws ns).run sched)
+    (j : Nat) (n : Notifier) (hj : s.ntf[j]? = some n) (hone : n.kind = .one ∨ ∃ c, n.kind = .onec c) :
+    n.temp.length ≤ 1 ∧ (n.pc = .scan → n.temp = []) ∧
+    (∀ c x, n.ops ≠ [] → n.kind = .onec c → n.pc = .mark → n.temp[n.marked]? = some x →
+      ∃ n', (step s (s.slp.length + j)).ntf[j]? = some n' ∧ n'.pc = .unlock ∧ n'.temp = n.temp ∧
+        (step s (s.slp.length + j)).waitset = s.waitset) := by
+  have h1 := reach_invOne ws ns hc sched
+  rw [← hs] at h1
+  have := (h1.2 j n hj) hone
+  exact ⟨this.1, this.2, fun c x hne hk hpc hx => mark_onec_unlocks hj hne hk hpc hx⟩
+
+/-- **Mutexes sharing an `address_waiter` bucket: no lost wake-up, for every number of mutexes, every arrival order
+and every schedule.**  `K` waiters in ONE concurrent monitor, waiter `i` blocked on condition `i` ("mutex `i` is free")
+with context `i` (the mutex's address); any number of unlocking threads, each performing any sequence of
+`cond_i := true; notify_one_relaxed(ctx == i)` (= `tbb::mutex::unlock`: `my_flag.exchange(false);
+notify_by_address_one(this)`), spurious notifications of any kind and re-locks (`cond_i := false`).  Once every
+unlocker has returned, no waiter is parked in `P()` with a closed semaphore while its mutex is free — in particular
+not the waiter whose node is OLDER than the nodes of the other mutexes' waiters. -/
+theorem mutex_bucket_collision_no_lost_wakeup (K : Nat) (ns : List (List NOp)) (hns : ∀ q ∈ ns, ∀ op ∈ q, bucketOp op)
+    (sched : List Tid) (s : St) (hs : s = (sys (bucketWaiters K) ns).run sched)
+    (hq : ∀ (j : Nat) (n : Notifier), s.ntf[j]? = some n → n.ops = [])
+    (i : Nat) (sl : Sleeper) (hi : s.slp[i]? = some sl) (hpc : sl.pc = .park) (hsem : sl.sem = 0) :
+    s.cond sl.cond = false :=
+  monitor_quiescent_no_sleeper_on_true _ _ (bucket_compat K ns hns) sched s hs hq i sl hi hpc hsem
+
+set_option maxRecDepth 8000 in
+/-- **The dequeue order of every notify entry point, as executed by the real code, is the model's.**  `scanObs` is
+regenerated on every run from the E-SHIM trace of `concurrent_monitor.h` (`Generated/C02.lean`): for wait sets with a
+known arrival order (contexts listed oldest first) and one notification, the sequence of nodes whose `my_is_in_list`
+the notifier cleared.  The model, run on the same wait set, dequeues the same nodes in the same order:
+`notify_one_relaxed(pred)` the NEWEST matching node only (scan from `last()` via `prev`, `break` at the first match),
+`notify(pred)` every matching node newest first, `notify_one` the oldest node, `notify_all` / `abort_all` all nodes
+oldest first, and nothing when no context matches. -/
+theorem scan_order_observed :
+    Generated.C02.scanObs.all (fun o => obsDequeue o.1 o.2.1 == o.2.2) = true ∧ Generated.C02.scanObs.length ≥ 10 := by decide
+
+/-! non-vacuity of the `notify_one_relaxed(pred)` theorems: two waiters of different contexts in one wait set, the
+OLDER one (sleeper 0, context 1) is the only match: it is dequeued and woken, the newer one stays enqueued; the
+mirrored run wakes the NEWER one; the hypothesis `uniqB` fails for two waiters sharing the context, and then the second
+one indeed stays parked on a true predicate (why `notify_one(pred)` needs it). -/
+example : compatB [[⟨1, 0⟩], [⟨2, 1⟩]] [[.sig (some 0) (.onec 1) true, .sig (some 1) (.onec 2) true]] = true := by decide
+example : compatB (bucketWaiters 3) [[.sig (some 1) (.onec 1) true], [.sig none .one false, .clr 1]] = true := by decide
+example :
+    let s := (sys [[⟨1, 0⟩], [⟨2, 1⟩]] [[.sig (some 0) (.onec 1) true]]).run
+      [0, 0, 0, 0, 0, 0, 0, 0, 0, 1, 1, 1, 1, 1, 1, 1, 1, 1, 2, 2, 2, 2]
+    s.waitset = [0, 1] ∧ (s.ntf[0]?.map (·.pc)) = some .scan ∧ s.ctxOf 0 = 1 ∧ s.ctxOf 1 = 2 := by decide
+example :
+    let s := (sys [[⟨1, 0⟩], [⟨2, 1⟩]] [[.sig (some 0) (.onec 1) true]]).run
+      [0, 0, 0, 0, 0, 0, 0, 0, 0, 1, 1, 1, 1, 1, 1, 1, 1, 1, 2, 2, 2, 2, 2, 2, 2, 2, 0]
+    s.waitset = [1] ∧ (s.slp[0]?.map (·.results)) = some [1] ∧ (s.ntf[0]?.map (·.ops)) = some [] := by decide
+example :
+    let s := (sys [[⟨1, 0⟩], [⟨2, 1⟩]] [[.sig (some 1) (.onec 2) true]]).run
+      [0, 0, 0, 0, 0, 0, 0, 0, 0, 1, 1, 1, 1, 1, 1, 1, 1, 1, 2, 2, 2, 2, 2, 2, 2, 2, 1]
+    s.waitset = [0] ∧ (s.slp[1]?.map (·.results)) = some [1] ∧ (s.ntf[0]?.map (·.ops)) = some [] := by decide
+example : compatB [[⟨1, 0⟩], [⟨1, 0⟩]] [[.sig (some 0) (.onec 1) true]] = false := by decide
+example :
+    let s := (sys [[⟨1, 0⟩], [⟨1, 0⟩]] [[.sig (some 0) (.onec 1) true]]).run
+      [0, 0, 0, 0, 0, 0, 0, 0, 0, 1, 1, 1, 1, 1, 1, 1, 1, 1, 2, 2, 2, 2, 2, 2, 2, 2, 1]
+    s.waitset = [0] ∧ (s.slp[0]?.map (·.pc)) = some .park ∧ s.cond 0 = true ∧ (s.ntf[0]?.map (·.ops)) = some [] := by decide
 
 /-! non-vacuity: a 2-sleeper / 2-notifier instance satisfies the hypothesis, reaches a state with a parked sleeper,
 and runs to completion with both sleepers woken. -/
@@ -190,19 +317,35 @@ theorem wait_ctx_sleep_no_loss_mixed (nW x c : Nat) (others : List (List NOp))
     (i : Nat) (sl : Sleeper) (hi : s.slp[i]? = some sl) (hpc : sl.pc = .park) (hsem : sl.sem = 0) :
     s.cond sl.cond = false := by
   refine monitor_quiescent_no_sleeper_on_true _ _ ?_ sched s hs hq i sl hi hpc hsem
-  simp only [compatB, List.all_eq_true]
-  intro p hp w hw q hq' op hop
-  have hw' : w = ⟨x, c⟩ := by
-    have := List.eq_of_mem_replicate hp; subst this; simpa using hw
-  subst hw'
-  split
-  · rename_i c' k r
-    simp only [List.mem_cons] at hq'
-    rcases hq' with e | e
-    · subst e; simp at hop; obtain ⟨rfl, rfl, _⟩ := hop; simp [NKind.accepts]
-    · have := hoth q e _ hop c' k r rfl
-      simp [this]
-  · rfl
+  simp only [compatB, Bool.and_eq_true]
+  constructor
+  · simp only [acceptB, List.all_eq_true]
+    intro p hp w hw q hq' op hop
+    have hw' : w = ⟨x, c⟩ := by
+      have := List.eq_of_mem_replicate hp; subst this; simpa using hw
+    subst hw'
+    split
+    · rename_i c' k r
+      simp only [List.mem_cons] at hq'
+      rcases hq' with e | e
+      · subst e; simp at hop; obtain ⟨rfl, rfl, _⟩ := hop; simp [NKind.accepts]
+      · have := hoth q e _ hop c' k r rfl
+        simp [this]
+    · rfl
+  · simp only [uniqB, List.all_eq_true]
+    intro q hq' op hop
+    split
+    · rename_i cd c0 r
+      simp only [List.mem_cons] at hq'
+      rcases hq' with e | e
+      · subst e; simp at hop
+      · have hne := hoth q e _ hop cd _ r rfl
+        simp only [uniqCtx, List.all_eq_true, List.mem_range, List.length_replicate]
+        intro a ha a' _
+        have : mentionsC ((List.replicate nW [(⟨x, c⟩ : WOp)]).getD a []) cd c0 = false := by
+          simp [List.getD_eq_getElem?_getD, ha, mentionsC, Ne.symm hne]
+        rw [this]; simp
+    · rfl
 
 /-! ### BinSem: the futex binary_semaphore -/
 
